@@ -197,6 +197,14 @@ impl ZerokitMerkleTree for PmTree {
         values: I,
     ) -> Result<()> {
         let v = values.into_iter().collect::<Vec<_>>();
+        if v.is_empty() {
+            // nothing is written: pmtree would raise the number of leaves set to `start` (or panic)
+            return if start > self.capacity() {
+                Err(Report::msg("provided range exceeds set size"))
+            } else {
+                Ok(())
+            };
+        }
         self.tree
             .set_range(start, v.clone().into_iter())
             .map_err(|e| Report::msg(e.to_string()))?;
